@@ -106,7 +106,7 @@ def oracle(line: str, obs: Obs):
                     answered_in_wait = False
                     collide = False
                     for w in t[4:]:
-                        wt = w.replace("_", " ").split(" ")
+                        wt = w.lstrip("!").replace("_", " ").split(" ")
                         if wt[0] == "rx":
                             am = parse_msg(wt[2])
                             if not am["R"] and am["hbh"] == hbh and am["e2e"] == int(d["e2e"]):
@@ -235,6 +235,18 @@ def scenarios(rng: random.Random, tier: str):
     inner = ("req_0_" + nodegen.ccr(0, 0, "node.local", "realm2.local") + "_2_" +
              "rx~0~" + nodegen.cca(2001, 268435464, "peer2.x"))
     out.append(pre + f" | req 0 {nodegen.ccr(0, 0, 'node.local')} 3 {inner}")
+    # the answer comes back while the request is still being handed to the connection (a very fast peer / the sender
+    # preempted right there): it is the sender's answer all the same
+    prev = CFG + " | start | acc | rx 0 " + nodegen.cer("peer2.x", "4", n(), n())
+    out.append(prev + f" | req 0 {nodegen.ccr(0, 0, 'node.local')} 3 !rx_0_{nodegen.cca(2001, 268435464, 'peer2.x')}")
+    out.append(prev + f" | req 0 {nodegen.ccr(0, 0, 'node.local')} 3 !rx_0_{nodegen.cca(2001, 268435464, 'peer2.x')}" +
+               f" | rx 0 {nodegen.cca(2001, 268435464, 'peer2.x')}")
+    # a default peer added without a realm name (it gets the node's realm): applications without peers of their own in that
+    # realm send through it
+    nodef = CFG.replace("peer:peer1.x,realm.local,0,0,30,1,1", "peer:peer1.x,-,0,0,30,1,1")
+    pren = nodef + " | start | acc | rx 0 " + nodegen.cer("peer1.x", "4+3", n(), n(), extra=",acct=3")
+    out.append(pren + f" | req 2 {nodegen.ccr(0, 0, 'node.local', app=3)} 1 | req 1 {nodegen.ccr(0, 0, 'node.local')} 1")
+    out.append(pren + f" | req 2 {nodegen.ccr(0, 0, 'node.local', app=3)} 5 rx_0_{nodegen.cca(2001, 268435464, 'peer1.x')}")
     # Destination-Host naming a ready peer that is not configured for the submitting application (and one that is)
     predh = (CFG + " | start | acc | rx 0 " + nodegen.cer("peer2.x", "4", n(), n()) + " | acc | rx 1 " + nodegen.cer("peer3.x", "4", n(), n()) +
              " | acc | rx 2 " + nodegen.cer("peer4.x", "4", n(), n()))
